@@ -65,7 +65,24 @@ def limits(tier):
 
 def jobs(tier):
     q = tier == "quick"
-    return [{"K": 8 if q else 10, "noreply": False}, {"K": 7 if q else 9, "noreply": True}]
+    return [{"K": 8 if q else 10, "noreply": False}, {"K": 7 if q else 9, "noreply": True},
+            # the endpoint's connect() may fail before it returns (already-failed Deferred)
+            {"K": 7 if q else 9, "noreply": False, "sync": True}]
+
+
+class _FirstN:
+    """set-like: 'contains' the next n addresses asked for"""
+
+    def __init__(self):
+        self.n = 0
+        self.used = False
+
+    def __contains__(self, key):
+        if self.n > 0:
+            self.n -= 1
+            self.used = True
+            return True
+        return False
 
 
 class Req:
@@ -87,8 +104,10 @@ def scenario(job):
         net = SimNet()
         bc = _KafkaBrokerClient(clock, net.endpoint_factory, BrokerMetadata(7, "h", 9092), "cid", lambda n: float(n))
         reqs = []
-        st = {"closed": False, "fails": 0, "ever_connected": False, "attempts_at_close": None}
-        ctx.sig("noreply=%s" % job["noreply"])
+        st = {"closed": False, "fails": 0, "ever_connected": False, "attempts_at_close": None, "sync_budget": 2}
+        armed = _FirstN()
+        net.sync_refuse = armed
+        ctx.sig("noreply=%s%s" % (job["noreply"], " sync-connect-failures" if job.get("sync") else ""))
 
         def open_tr():
             ts = net.open_transports()
@@ -136,9 +155,11 @@ def scenario(job):
                 acts.append(7)
             if not st["closed"]:
                 acts.append(8)
+            if job.get("sync") and armed.n == 0 and st["sync_budget"] > 0 and not st["closed"] and st["fails"] < 3:
+                acts.append(9)
             if not acts:
                 break
-            a = ctx.choose("ev", 9, enabled=sorted(set(acts)))
+            a = ctx.choose("ev", 10, enabled=sorted(set(acts)))
             try:
                 if a == 0:
                     cid = 30 + len(reqs)
@@ -228,6 +249,10 @@ def scenario(job):
                     ctx.log("timer", fire_next_timer(clock))
                     if not st["closed"]:
                         ctx.check(len(net.attempts) == n_att + 1, "backoff-follows-retry-policy", "back-off expired but no connection attempt was made")
+                elif a == 9:
+                    ctx.log("next-connect-fails-immediately")
+                    armed.n = 1
+                    st["sync_budget"] -= 1
                 elif a == 8:
                     ctx.log("close")
                     st["closed"] = True
@@ -256,6 +281,15 @@ def scenario(job):
 
                 ctx.check(False, "no-exception-escapes", "%r %s" % (e, traceback.format_exc()[-800:]))
                 return
+            if armed.used:
+                armed.used = False
+                st["fails"] += 1
+                ctx.log("connect-failed-immediately", st["fails"])
+                if not st["closed"]:
+                    t = next_timer(clock)
+                    ok = t is not None and abs((t.getTime() - clock.seconds()) - float(st["fails"])) < 1e-9
+                    ctx.check(ok, "backoff-follows-retry-policy", "after immediate failure %d the next attempt is due in %r s" % (st["fails"], None if t is None else t.getTime() - clock.seconds()))
+                    ctx.check(not net.pending_attempts(), "no-attempt-during-backoff")
             if st["closed"]:
                 ctx.check(
                     len(net.attempts) == st["attempts_at_close"] and not net.pending_attempts(),
